@@ -133,9 +133,28 @@ impl LogicalLineFileFormatter for OptimisingLineFormatter {
         lines_to_reflow.sort_by_key(|line| line.0);
         lines_to_reflow.dedup_by_key(|line| line.0);
 
+        let reflowed = !lines_to_reflow.is_empty();
         for line in lines_to_reflow {
             if let Some(solution) = olf.format_line(line) {
                 olf.reconstruct_solution(&solution, line.1);
+            }
+        }
+
+        /*
+            Reflowing may have turned the start of a physical line into a continuation and vice
+            versa, so the spaces have to follow: none at the start of a line, and what
+            `TokenSpacing` asked for everywhere else.
+        */
+        if reflowed {
+            for token_index in 0..olf.formatted_tokens.len() {
+                let spaces = olf.token_lengths[token_index].spaces_before;
+                if let Some(data) = olf.formatted_tokens.get_formatting_data_mut(token_index) {
+                    data.spaces_before = if data.newlines_before > 0 {
+                        0
+                    } else {
+                        spaces.try_into().unwrap_or(u16::MAX)
+                    };
+                }
             }
         }
     }
